@@ -1813,12 +1813,24 @@ func (b Block) StringDump(verbose bool) string {
 	return s
 }
 
-// assumes b.data is set and we need to compute all other properties of a Block
+// assumes b.data is set and we need to compute all other properties of a Block.
+// The serialization may come from a client, so every embedded count and index is
+// checked against the data actually present before it is used.
 func (b *Block) setExportedVars() (err error) {
+	if len(b.data) < 24 {
+		return fmt.Errorf("can't unmarshal block binary of length %d", len(b.data))
+	}
 	// Get the sub-blocks along each dimension
 	gx := binary.LittleEndian.Uint32(b.data[0:4])
 	gy := binary.LittleEndian.Uint32(b.data[4:8])
 	gz := binary.LittleEndian.Uint32(b.data[8:12])
+
+	if gx > MaxSubBlockSize || gy > MaxSubBlockSize || gz > MaxSubBlockSize {
+		return fmt.Errorf("%d x %d x %d sub-blocks exceed max dimension of %d voxels (%d sub-blocks)", gx, gy, gz, MaxBlockSize, MaxSubBlockSize)
+	}
+	if gx == 0 || gy == 0 || gz == 0 {
+		return fmt.Errorf("block has %d x %d x %d sub-blocks, each dimension must be at least 1", gx, gy, gz)
+	}
 	numSubBlocks := uint32(gx * gy * gz)
 
 	b.Size[0] = int32(gx * SubBlockSize)
@@ -1829,15 +1841,16 @@ func (b *Block) setExportedVars() (err error) {
 	if numLabels == 0 {
 		return fmt.Errorf("block has 0 labels, which is not allowed")
 	}
-
-	if gx > MaxSubBlockSize || gy > MaxSubBlockSize || gz > MaxSubBlockSize {
-		return fmt.Errorf("%d x %d x %d sub-blocks exceed max dimension of %d voxels (%d sub-blocks)", gx, gy, gz, MaxBlockSize, MaxSubBlockSize)
-	}
 	if numLabels > MaxBlockSize*MaxBlockSize*MaxBlockSize {
 		return fmt.Errorf("number of labels (%d) exceeds what can be contained in max block size %d", numLabels, MaxBlockSize)
 	}
+	dataLen := uint64(len(b.data))
+	pos := uint64(16)
+	if pos+uint64(numLabels)*8 > dataLen {
+		return fmt.Errorf("block declares %d labels but has only %d bytes", numLabels, dataLen)
+	}
 
-	b.Labels, err = dvid.AliasByteToUint64(b.data[16 : 16+numLabels*8])
+	b.Labels, err = dvid.AliasByteToUint64(b.data[pos : pos+uint64(numLabels)*8])
 	if err != nil {
 		return
 	}
@@ -1849,26 +1862,44 @@ func (b *Block) setExportedVars() (err error) {
 		return
 	}
 
-	pos := uint32(16)
-	pos += numLabels * 8
-	nbytes := numSubBlocks * 2
+	pos += uint64(numLabels) * 8
+	nbytes := uint64(numSubBlocks) * 2
+	if pos+nbytes > dataLen {
+		return fmt.Errorf("block with %d sub-blocks is truncated: %d bytes", numSubBlocks, dataLen)
+	}
 	b.NumSBLabels, err = dvid.AliasByteToUint16(b.data[pos : pos+nbytes])
 	if err != nil {
 		return
 	}
-	var numSubBlockIndices uint32
+	var numSubBlockIndices, valueBytes uint64
 	for _, num := range b.NumSBLabels {
-		numSubBlockIndices += uint32(num)
+		if num > SubBlockSize*SubBlockSize*SubBlockSize {
+			return fmt.Errorf("sub-block declares %d labels, more than its %d voxels", num, SubBlockSize*SubBlockSize*SubBlockSize)
+		}
+		numSubBlockIndices += uint64(num)
+		// packed values of a sub-block are padded to a byte boundary
+		valueBytes += (uint64(bitsFor(num))*SubBlockSize*SubBlockSize*SubBlockSize + 7) / 8
 	}
 
 	pos += nbytes
 	subBlockIndexBytes := numSubBlockIndices * 4
+	if pos+subBlockIndexBytes > dataLen {
+		return fmt.Errorf("block declares %d sub-block label indices but is truncated: %d bytes", numSubBlockIndices, dataLen)
+	}
 	b.SBIndices, err = dvid.AliasByteToUint32(b.data[pos : pos+subBlockIndexBytes])
 	if err != nil {
 		return
 	}
+	for _, index := range b.SBIndices {
+		if index >= numLabels {
+			return fmt.Errorf("sub-block label index %d is outside the block's %d labels", index, numLabels)
+		}
+	}
 
 	pos += subBlockIndexBytes
+	if pos+valueBytes > dataLen {
+		return fmt.Errorf("block needs %d bytes of packed sub-block values but has only %d", valueBytes, dataLen-pos)
+	}
 	b.SBValues = b.data[pos:]
 	return
 }
